@@ -497,7 +497,7 @@ func init() {
 		Rule: "process runs of the three binaries (v2/jd, jd, jd -v2=false): every combination of {-set,-mset,-setkeys,-set -setkeys} x -yaml x -color x -precision x -f {none,jd,patch,merge} x -o x {file,stdin} (640 diff-mode shapes, 320 patch-mode shapes) x a panel of document pairs, translate modes, -git-diff-driver and error cases; " +
 			"each run is compared with a CLI model that maps the flags to the documented library calls: exit status, stdout bytes, -o file bytes (stdout empty), stdin vs file; the patch-mode leg feeds the library's diff to `jd -p` and requires the output to equal the library rendering and to reproduce b; " +
 			"non-trivial = every run; distinct = distinct (shape, binary, inputs)",
-		Floors: map[string]int{"cli_runs": 5000, "status_0": 500, "status_1": 500, "status_2": 200, "with_-o": 1000, "-o_onto_existing_longer_file": 500, "second_input_from_stdin": 1000, "colour_output": 300, "patch_mode_runs": 1000,
+		Floors: map[string]int{"cli_runs": 5000, "status_0": 500, "status_1": 500, "status_2": 200, "with_-o": 1000, "-o_onto_existing_longer_file": 500, "stdin_vs_file_pairs": 100, "second_input_from_stdin": 1000, "colour_output": 300, "patch_mode_runs": 1000,
 			"pipeline_reproduces_b:jd": 300, "pipeline_reproduces_b:patch": 50, "pipeline_reproduces_b:merge": 50, "pipeline_yaml": 200, "translate_runs": 120, "git_diff_driver_runs": 15, "error_cases": 200},
 		Assumptions: []string{
 			"the CLI model (props/c14.go modelDiff / modelPatch) encodes the documented mapping: flags -> options, -f -> renderer / reader, status 0 no difference / 1 difference / 2 error",
@@ -548,6 +548,75 @@ func init() {
 				a, b = gen.Pair(r, gen.PTiny)
 			}
 			c14PatchCase(c, s, bin, a, b)
+		},
+	})
+	p.Strata = append(p.Strata, mon.Stratum{
+		Name: "stdin-equals-file",
+		CLI:  true,
+		N:    qt(150, 3000),
+		Run: func(c *mon.Ctx, i int) {
+			// metamorphic, model-free: the same bytes given as a file or on stdin must give the same run.
+			// Inputs where leading / trailing white space is content: YAML block scalars (as jd's own
+			// Yaml() writes multi-line strings), documents ending in several newlines, indented first lines.
+			bin := Binaries[i%3]
+			tails := []string{"line one\nline two\n", "x\n\n", "  indented\n", "plain", "tab\t\n"}
+			mk := func(k int) map[string]any {
+				return map[string]any{"a": float64(k), "list": []any{"v", gen.Pick(c.R, tails)}, "zz-last": gen.Pick(c.R, tails)}
+			}
+			av, bv := mk(1), mk(2)
+			yaml := (i/3)%2 == 0
+			var aText, bText string
+			flags := []string{}
+			if yaml {
+				aText, bText = ReadJ(ref.ToJSON(av)).Yaml(), ReadJ(ref.ToJSON(bv)).Yaml()
+				flags = append(flags, "-yaml")
+			} else {
+				aText, bText = ref.ToJSON(av)+"\n\n", "  "+ref.ToJSON(bv)+"\n"
+			}
+			c.Input("binary", bin.Name)
+			c.Input("a", aText)
+			c.Input("b", bText)
+			c.Nontrivial(joinKey("stdin", bin.Name, aText, bText))
+			files := map[string]string{"a.in": aText, "b.in": bText}
+			r1 := RunCLI(c, bin, append(append([]string{}, flags...), "a.in", "b.in"), "", files)
+			r2 := RunCLI(c, bin, append(append([]string{}, flags...), "a.in"), bText, files)
+			c.Feature("cli_runs")
+			c.Feature("stdin_vs_file_pairs")
+			if r1.Status != r2.Status || r1.Stdout != r2.Stdout {
+				c.Violation("reading the second input from stdin is not equivalent to naming a file (diff mode)",
+					map[string]any{"file_status": r1.Status, "stdin_status": r2.Status, "file_stdout": r1.Stdout, "stdin_stdout": r2.Stdout})
+				return
+			}
+			if r1.Status > 1 {
+				c.Violation(fmt.Sprintf("diff of two valid documents exited %d", r1.Status), map[string]any{"stderr": r1.Stderr})
+				return
+			}
+			// patch mode: the diff just printed, applied to a given as file / on stdin
+			files["p.in"] = r1.Stdout
+			p1 := RunCLI(c, bin, append(append([]string{}, flags...), "-p", "p.in", "a.in"), "", files)
+			p2 := RunCLI(c, bin, append(append([]string{}, flags...), "-p", "p.in"), aText, files)
+			if p1.Status != p2.Status || p1.Stdout != p2.Stdout {
+				c.Violation("reading the document from stdin is not equivalent to naming a file (patch mode)",
+					map[string]any{"file_status": p1.Status, "stdin_status": p2.Status, "file_stdout": p1.Stdout, "stdin_stdout": p2.Stdout})
+				return
+			}
+			if p1.Status != 0 {
+				c.Violation("jd -p rejected the diff the same binary printed", map[string]any{"stderr": p1.Stderr, "diff": r1.Stdout})
+				return
+			}
+			var back any
+			var err error
+			if yaml {
+				var Y jd.JsonNode
+				if Y, err = jd.ReadYamlString(p1.Stdout); err == nil {
+					back = Plain(Y)
+				}
+			} else {
+				back, err = ref.FromJSON(p1.Stdout)
+			}
+			if err != nil || !ref.Eq(back, bv, ref.List) {
+				c.Violation("print-then-patch does not reproduce b (content with significant trailing white space)", map[string]any{"patched": p1.Stdout, "b": ref.ToJSON(bv)})
+			}
 		},
 	})
 	p.Strata = append(p.Strata, mon.Stratum{
